@@ -913,7 +913,10 @@ func reduceEntries(entries []Entry, fn sutils.AggregateFunctions, fnConstant flo
 		index := fnConstant * float64(len(entriesCopy)-1)
 
 		// Check for special cases when quantile position doesn't fall on an exact index
-		if index != float64(int(index)) && int(index)+1 < len(entriesCopy) {
+		if !(index >= 0 && index <= float64(len(entriesCopy)-1)) {
+			// the quantile is outside of [0, 1] (or NaN): there is no such rank among the entries
+			log.Errorf("reduceEntries: invalid index: %v, len(entriesCopy): %v", index, len(entriesCopy))
+		} else if index != float64(int(index)) && int(index)+1 < len(entriesCopy) {
 			// Calculate the weight for interpolation
 			fraction := index - float64(int(index))
 
@@ -990,7 +993,10 @@ func reduceRunningEntries(entries []RunningEntry, fn sutils.AggregateFunctions, 
 
 		index := fnConstant * float64(len(entriesCopy)-1)
 		// Check for special cases when quantile position doesn't fall on an exact index
-		if index >= 0 && index != float64(int(index)) && int(index)+1 < len(entriesCopy) {
+		if !(index >= 0 && index <= float64(len(entriesCopy)-1)) {
+			// the quantile is outside of [0, 1] (or NaN): there is no such rank among the entries
+			log.Errorf("reduceRunningEntries: invalid index: %v, len(entriesCopy): %v", index, len(entriesCopy))
+		} else if index != float64(int(index)) && int(index)+1 < len(entriesCopy) {
 			// Calculate the weight for interpolation
 			fraction := index - float64(int(index))
 
@@ -998,10 +1004,8 @@ func reduceRunningEntries(entries []RunningEntry, fn sutils.AggregateFunctions, 
 			dpVal2 := entriesCopy[int(index)+1].runningVal
 
 			ret = dpVal1 + fraction*(dpVal2-dpVal1)
-		} else if index >= 0 && int(index) < len(entriesCopy) {
-			ret = entriesCopy[int(index)].runningVal
 		} else {
-			log.Errorf("reduceRunningEntries: invalid index: %v, len(entriesCopy): %v", index, len(entriesCopy))
+			ret = entriesCopy[int(index)].runningVal
 		}
 	case sutils.Group:
 		ret = 1
